@@ -152,8 +152,98 @@ def run(out, seed, n, mode):
             ign = rnd.sample(["a", "_b", "c", "d", "e", "p", "label", "_D0__c"], rnd.randint(0, 3)) if rnd.random() < 0.7 else None
             orig = graph(rnd, W, rnd.randint(0, 2), keys + ["PtL", "Color"])
             recs.append(record(W, orig, {"H": H, "ign": ["s:" + x for x in (ign or [])]}, mode, config, ign))
+        elif mode == "fail":
+            recs.append(record_failure(W, rnd, config, beans))
+        elif mode == "rpc":
+            recs.append(record_rpc(W, rnd, config, beans))
     json.dump(recs, open(out, "w"))
     print(len(recs))
+
+
+def corrupt(rnd, dumped):
+    """Makes a well-formed dumped structure fail somewhere inside: unknown class, malformed descriptor, a member that
+    cannot be set (slotted class), bad constructor arguments."""
+    spots = []
+
+    def walk(v):
+        if isinstance(v, dict):
+            if "__jsonclass__" in v:
+                spots.append(v)
+            for x in v.values():
+                walk(x)
+        elif isinstance(v, list):
+            for x in v:
+                walk(x)
+    walk(dumped)
+    if not spots:
+        return False
+    d = rnd.choice(spots)
+    how = rnd.choice(["unknown", "badname", "len1", "scalar", "extra_member", "nested_bad", "badargs"])
+    if how == "unknown":
+        d["__jsonclass__"] = ["verif_beans.NoSuchClass", []]
+    elif how == "badname":
+        d["__jsonclass__"] = ["a b.C", []]
+    elif how == "len1":
+        d["__jsonclass__"] = d["__jsonclass__"][:1]
+    elif how == "scalar":
+        d["__jsonclass__"] = [d["__jsonclass__"][0], 5]
+    elif how == "extra_member":
+        d["__jsonclass__"] = ["verif_beans.S0", []]
+        d["not_a_slot"] = 1
+    elif how == "nested_bad":
+        d["zz_member"] = [{"__jsonclass__": ["nowhere.Missing", []]}]
+    else:
+        d["__jsonclass__"] = [d["__jsonclass__"][0], [1, 2, 3, 4, 5, 6]]
+    return True
+
+
+def record_failure(W, rnd, config, beans):
+    orig = graph(rnd, W, rnd.randint(1, 2), beans)
+    rec = {"mode": "fail", "CT": W.CT, "cfg": {"H": [], "ign": []}, "orig": W.enc(orig)}
+    good = jsonclass.dump(orig, config=config)
+    rec["orig_after"] = W.enc(orig)
+    wire = json.loads(json.dumps(good))
+    corrupted = corrupt(rnd, wire)
+    rec["dumped"] = {"ok": True, "v": enc(good), "exc": ""}
+    rec["wire_ok"] = False                      # round trip is not claimed for corrupted input
+    rec["loadin"] = enc(wire)
+    l = call(lambda: jsonclass.load(wire, config.classes))
+    rec["loadin_after"] = enc(wire)
+    rec["loaded"] = {"ok": l["ok"], "v": W.enc(l["v"]) if l["ok"] else enc(None), "exc": l["exc"]}
+    rec["corrupted"] = corrupted
+    return rec
+
+
+def record_rpc(W, rnd, config, beans):
+    """The object travels as a parameter and comes back as a result through ServerProxy <-> dispatcher."""
+    orig = graph(rnd, W, rnd.randint(0, 2), beans)
+    ver = rnd.choice([1.0, 2.0])
+    config.version = ver
+    srv_cfg = config.copy()
+    srv_cfg.classes = config.classes
+    srv_cfg.version = rnd.choice([1.0, 2.0])
+    disp = SimpleJSONRPCDispatcher(config=srv_cfg)
+    got = []
+
+    def echo(x):
+        got.append(W.enc(x))
+        return x
+    disp.register_function(echo, "echo")
+
+    class T(Loop):
+        def request(self, host, handler, body, verbose=0):
+            return disp._marshaled_dispatch(body)
+    rec = {"mode": "rpc", "CT": W.CT, "cfg": {"H": [], "ign": []}, "orig": W.enc(orig)}
+    res = call(lambda: jsonrpc.ServerProxy("http://loop/", transport=T(""), version=ver, config=config).echo(orig))
+    rec["orig_after"] = W.enc(orig)
+    d = call(lambda: jsonclass.dump(orig, config=config))
+    rec["dumped"] = {"ok": d["ok"], "v": enc(d["v"]), "exc": d["exc"]}
+    rec["wire_ok"] = True
+    rec["loadin"] = rec["loadin_after"] = enc(None)
+    # "loaded" is what the remote callable received; "returned" what came back to the caller
+    rec["loaded"] = {"ok": len(got) == 1, "v": got[0] if got else enc(None), "exc": "" if got else "callable not invoked once: %d" % len(got)}
+    rec["returned"] = {"ok": res["ok"], "v": W.enc(res["v"]), "exc": res["exc"]}
+    return rec
 
 
 if __name__ == "__main__":
